@@ -155,10 +155,13 @@ type c15Recv struct {
 	conn               *grpc.ClientConn
 }
 
-func c15StartReceiver(t *testing.T, auth bool) *c15Recv {
+func c15StartReceiver(t *testing.T, auth bool, maxBody ...int64) *c15Recv {
 	r := &c15Recv{grpcAddr: c15FreeAddr(t), httpAddr: c15FreeAddr(t), sink: &c15Sink{}}
 	f := otlpreceiver.NewFactory()
 	cfg := f.CreateDefaultConfig().(*otlpreceiver.Config)
+	if len(maxBody) > 0 {
+		cfg.HTTP.ServerConfig.MaxRequestBodySize = maxBody[0]
+	}
 	cfg.GRPC.NetAddr.Endpoint = r.grpcAddr
 	cfg.HTTP.ServerConfig.Endpoint = r.httpAddr
 	if auth {
@@ -539,10 +542,12 @@ type c15Case struct {
 	lvl   int // compression level of the HTTP client (0 = default); not an input of the model: the payload must arrive whatever it is
 	shell bool
 	out   c15Outcome
-	auth  string // off good bad
-	conc  int    // > 0: a concurrency case with that many overlapping senders (monitor)
-	kind  string // raw only
-	extra string // raw only: method / content type / …
+	auth  string   // off good bad
+	recv  string   // raw only: "small" = the receiver with max_request_body_size 4096
+	fk    *c15Fake // a sender-side case against the scripted fake servers
+	conc  int      // > 0: a concurrency case with that many overlapping senders (monitor)
+	kind  string   // raw only
+	extra string   // raw only: method / content type / …
 }
 
 var c15GrpcComps = []string{"none", "gzip", "snappy", "zstd"}
@@ -645,6 +650,18 @@ func c15Gen(rnd interface{ IntN(int) int }) c15Case {
 		c.tr = "http"
 		kinds := []string{"method", "ctype", "badbody", "badbodyjson", "badpath", "badenc", "fine", "method+ctype", "ctype+badbody", "badenc+method", "badpath+method", "badenc+badpath"}
 		c.kind = kinds[rnd.IntN(len(kinds))]
+		if rnd.IntN(2) == 0 {
+			// every malformed class × both content types × every compression
+			comp := c15HTTPComps[1+rnd.IntN(len(c15HTTPComps)-1)]
+			c.kind = []string{
+				"comp:" + comp, "json+comp:" + comp, "json", "comp:" + comp + "+truncated", "json+comp:" + comp + "+truncated",
+				"json+method", "json+badpath", "comp:" + comp + "+method", "comp:" + comp + "+ctype", "comp:" + comp + "+badbody", "json+comp:" + comp + "+badbodyjson",
+				"oversize", "json+oversize", "comp:" + comp + "+bomb", "json+comp:" + comp + "+bomb", "comp:" + comp + "+oversize",
+			}[rnd.IntN(16)]
+			if strings.Contains(c.kind, "oversize") || strings.Contains(c.kind, "bomb") {
+				c.recv, c.auth = "small", "off"
+			}
+		}
 		return c
 	}
 	if rnd.IntN(2) == 0 {
@@ -874,6 +891,8 @@ func TestVerifC15(t *testing.T) {
 	out.Linef("model c15 1")
 	open := c15StartReceiver(t, false)
 	authd := c15StartReceiver(t, true)
+	fakes := c15StartFakes(t)
+	small := c15StartReceiver(t, false, 4096)
 	exps := map[c15ExpKey]*c15Exp{}
 	corpus := append(c15Corpus(), c15BigCorpus()...)
 	// the profiles signal on every transport/encoding, with an error outcome and with zero samples
@@ -882,6 +901,34 @@ func TestVerifC15(t *testing.T) {
 			c15Case{tr: te[0], enc: te[1], comp: "gzip", sig: "profiles", items: 3, out: c15Outcome{kind: "ok"}, auth: "off"},
 			c15Case{tr: te[0], enc: te[1], comp: "none", sig: "profiles", items: 2, out: c15Outcome{kind: "st", code: 14, hasRI: true, ri: 1500 * time.Millisecond}, auth: "off"},
 			c15Case{tr: te[0], enc: te[1], comp: "zstd", sig: "profiles", items: 0, shell: true, out: c15Outcome{kind: "perm"}, auth: "off"})
+	}
+	// sender side against the fake servers: the Retry-After forms, signed/huge delays, partial success, odd bodies
+	now := time.Now()
+	for _, fk := range []c15Fake{
+		{tr: "http", enc: "pb", status: 503, raKind: "d", raSec: 120, raVals: []string{now.Add(120 * time.Second).UTC().Format(time.RFC1123)}, body: "status"},
+		{tr: "http", enc: "json", status: 429, raKind: "d", raSec: -3600, raVals: []string{now.Add(-3600 * time.Second).UTC().Format(time.RFC1123)}, body: "garbage"},
+		{tr: "http", enc: "pb", status: 503, raKind: "s", raSec: -30, raVals: []string{"-30"}, body: "empty"},
+		{tr: "http", enc: "pb", status: 429, raKind: "s", raSec: 0, raVals: []string{"0"}, body: "status"},
+		{tr: "http", enc: "pb", status: 503, raKind: "s", raSec: 9223372036, raVals: []string{"9223372036"}, body: "status"},
+		{tr: "http", enc: "pb", status: 503, raKind: "s", raSec: 9223372037, raVals: []string{"9223372037"}, body: "status"},
+		{tr: "http", enc: "pb", status: 503, raKind: "bad", raVals: []string{""}, body: "status"},
+		{tr: "http", enc: "pb", status: 502, raKind: "s", raSec: 5, raVals: []string{"5"}, body: "huge"},
+		{tr: "http", enc: "pb", status: 400, raKind: "s", raSec: 5, raVals: []string{"5"}, body: "garbage"},
+		{tr: "http", enc: "pb", status: 200, raKind: "absent", body: "partial"},
+		{tr: "http", enc: "json", status: 200, raKind: "absent", body: "partial"},
+		{tr: "http", enc: "pb", status: 200, raKind: "absent", body: "undecodable"},
+		{tr: "http", enc: "json", status: 202, raKind: "absent", body: "huge"},
+		{tr: "http", enc: "pb", status: 200, raKind: "absent", body: "other"},
+		{tr: "http", enc: "pb", status: 304, raKind: "absent", body: "empty"},
+		{tr: "http", enc: "pb", status: 999, raKind: "s", raSec: 1, raVals: []string{"1"}, body: "status"},
+		{tr: "grpc", enc: "-", code: 0, partial: true},
+		{tr: "grpc", enc: "-", code: 14, hasRI: true, ri: -500 * time.Millisecond, partial: true},
+		{tr: "grpc", enc: "-", code: 8, hasRI: true, ri: 0},
+		{tr: "grpc", enc: "-", code: 8},
+		{tr: "grpc", enc: "-", code: 99, hasRI: true, ri: time.Second},
+	} {
+		fk := fk
+		corpus = append(corpus, c15Case{fk: &fk, auth: "off"})
 	}
 	// concurrency corpus: overlapping senders inside one receiver
 	for _, k := range []int{4, 6, 5} {
@@ -893,6 +940,9 @@ func TestVerifC15(t *testing.T) {
 		var c c15Case
 		if ci < len(corpus) {
 			c = corpus[ci]
+		} else if rnd.IntN(5) == 0 {
+			fk := c15GenFake(rnd)
+			c = c15Case{fk: &fk, auth: "off"}
 		} else if rnd.IntN(500) == 0 {
 			c = c15Case{conc: 4 + rnd.IntN(4), auth: "off"}
 		} else {
@@ -903,7 +953,17 @@ func TestVerifC15(t *testing.T) {
 		if c.auth != "off" {
 			r = authd
 		}
+		if c.recv == "small" {
+			r = small
+		}
 		good := c.auth == "good"
+		if c.fk != nil {
+			c15RunFake(t, out, fakes, *c.fk, ci, rnd)
+			out.Linef("nt")
+			out.Linef("end")
+			out.Flush()
+			continue
+		}
 		if c.conc > 0 {
 			c15Conc(t, out, open, exps, ci, c.conc, rnd)
 			out.Linef("nt")
@@ -985,9 +1045,34 @@ func TestVerifC15(t *testing.T) {
 	}
 }
 
+// c15ModelKind: the stage vocabulary of the model (`Drivers/C15.lean`) for a harness kind
+func c15ModelKind(kind string) (string, bool) {
+	var ks []string
+	bad := false
+	for _, k := range strings.Split(kind, "+") {
+		switch {
+		case strings.HasPrefix(k, "comp:"), k == "fine":
+			// a valid Content-Encoding is not a fault
+		case k == "json":
+			ks = append(ks, "json")
+		case k == "truncated", k == "oversize", k == "bomb":
+			ks = append(ks, "unreadable")
+			bad = true
+		default:
+			ks = append(ks, k)
+			bad = true
+		}
+	}
+	if len(ks) == 0 {
+		return "fine", false
+	}
+	return strings.Join(ks, "+"), bad
+}
+
 func c15Raw(out *vOut, r *c15Recv, c c15Case, good bool, rnd interface{ IntN(int) int }) {
 	p := c15MakePayload(c.sig, 1, false, "raw")
-	out.Linef("op raw tr=%s kind=%s auth=%s out=%s", c.tr, c.kind, c.auth, c.out.token())
+	mk, isBad := c15ModelKind(c.kind)
+	out.Linef("op raw tr=%s kind=%s auth=%s out=%s how=%s", c.tr, mk, c.auth, c.out.token(), c.kind)
 	before, _ := r.sink.snapshot()
 	if c.tr == "grpc" {
 		body := p.pb
@@ -1004,7 +1089,24 @@ func c15Raw(out *vOut, r *c15Recv, c c15Case, good bool, rnd interface{ IntN(int
 		return
 	}
 	method, path, ctype, cenc, body := http.MethodPost, c15Paths[c.sig], "application/x-protobuf", "", p.pb
+	isJSON := strings.Contains(c.kind, "json")
+	if strings.Contains(c.kind, "oversize") {
+		p = c15MakePayload(c.sig, 60, false, "raw-oversize") // > 4096 bytes in either encoding
+		body = p.pb
+	}
+	if strings.Contains(c.kind, "bomb") {
+		p = c15MakePayload(c.sig, 600, false, "raw-bomb") // compresses below 4096, expands far beyond
+		body = p.pb
+	}
+	if isJSON {
+		ctype, body = "application/json", p.js
+	}
+	comp := ""
 	for _, k := range strings.Split(c.kind, "+") {
+		switch {
+		case strings.HasPrefix(k, "comp:"):
+			comp = strings.TrimPrefix(k, "comp:")
+		}
 		switch k {
 		case "method":
 			method = []string{http.MethodGet, http.MethodPut, http.MethodPatch, http.MethodDelete, http.MethodHead}[rnd.IntN(4)]
@@ -1025,11 +1127,21 @@ func c15Raw(out *vOut, r *c15Recv, c c15Case, good bool, rnd interface{ IntN(int
 			}
 		}
 	}
+	if comp != "" && cenc == "" {
+		body = c15Compress(comp, body)
+		cenc = comp
+		if strings.Contains(c.kind, "truncated") {
+			body = body[:len(body)/2]
+		}
+		if strings.Contains(c.kind, "bomb") && len(body) >= 4096 {
+			out.Linef("stat raw_bomb_not_small_enough 1")
+		}
+	}
 	st, _, _ := c15ProbeHTTP(r, method, path, ctype, cenc, body, good)
 	after, _ := r.sink.snapshot()
 	out.Linef("obs raw status=%d calls=%d", st, after-before)
 	// direct oracle: a rejected request is a 4xx and never reaches the consumer
-	if c.kind != "fine" || c.auth == "bad" {
+	if isBad || c.auth == "bad" {
 		if after-before > 0 {
 			out.Linef("viol sig=C15/http/malformed-request-reached-consumer kind=%s auth=%s", c.kind, c.auth)
 		}
